@@ -138,6 +138,51 @@ func VerifC04EntryNative() {
 	}
 }
 
+// verifUnreadableTexts: data texts from which no complete JSON value can be read - empty, truncated,
+// another encoding, other formats (the YAML/RAML source itself, YAML flow collections, comments).
+// The decoders run natively on them: which texts are readable is decided by the real code, not by
+// an environment choice.
+var verifUnreadableTexts = []string{
+	"", " \n\t", "{", "[1,", "{\"@id\":", "\"abc", "tru", "nul", "-", "1e", "[1 2]", "{\"a\" 1}", "{\"a\": 1,}", "[1,]",
+	"#%RAML 1.0\ntitle: API\nversion: 1\n/pets:\n  get:\n", "title: API\nversion: 1\n", "- a\n- b\n", "{'@id': 'x'}", "{a: 1}", "{@id: x}",
+	"# generated\n{}", "// generated\n{}", "\xef\xbb\xbf{}", "\xff\xfe{\x00}\x00", "\xfe\xff\x00{\x00}", "---", "--- {}", "~", "<rdf:RDF/>", "\x00", "@prefix ex: <http://example.org/> .",
+	"NaN", "Infinity", "undefined", "'text'", "[a, b]", "key: [1, 2]\n", "? a\n: b\n", "!!map {}", "&a {}", "%YAML 1.2\n---\n{}\n",
+}
+
+// VerifC04Texts: every text of the family, through every entry point: an error and no report.
+func VerifC04Texts() {
+	ep := v.Choice("entry", 4)
+	var compiled *rego.PreparedEvalQuery
+	if ep >= 2 {
+		var cerr error
+		compiled, cerr = ProcessProfile(verifProfile, false, nil)
+		v.Assume(cerr == nil)
+	}
+	k := v.Choice("text", len(verifUnreadableTexts))
+	v.ScopeShared("v")
+	report, err, panicked := verifCall(ep, compiled, verifUnreadableTexts[k])
+	v.Reach("returned")
+	v.Assert("C04.no-panic", !panicked)
+	v.Assert("C04.error-returned", panicked || err != nil)
+	v.Assert("C04.no-report", report == "")
+}
+
+func VerifC04TextsNative() {
+	ep := v.ReplayInt("entry")
+	var compiled *rego.PreparedEvalQuery
+	if ep >= 2 {
+		var cerr error
+		compiled, cerr = ProcessProfile(verifProfile, false, nil)
+		if cerr != nil {
+			panic(cerr)
+		}
+	}
+	report, err, panicked := verifCall(ep, compiled, verifUnreadableTexts[v.ReplayInt("text")])
+	v.Assert("C04.no-panic", !panicked)
+	v.Assert("C04.error-returned", panicked || err != nil)
+	v.Assert("C04.no-report", report == "")
+}
+
 // VerifC09Equiv: validating with the profile text equals compiling first and
 // validating with the compiled profile, for every outcome of the stubbed stages.
 func VerifC09Equiv() {
@@ -310,6 +355,84 @@ func VerifC09IndexFrameNative() {
 	Index(withSI)
 	after := Index(plain()).(types.ObjectMap)["@lexical"].(types.ObjectMap)["n1"].(types.ObjectMap)["uri"]
 	v.Assert("C09.frame-globals", fresh == after && after == "")
+}
+
+// verifUnitGraph: a unit whose root file is root and whose library file://lib declares the nodes
+// listed in inLib; every node n1..n3 has a lexical entry of its own.
+func verifUnitGraph(root string, inLib []string, rangeOf func(id string) string) any {
+	nodes := []any{}
+	var lex []any
+	for _, id := range []string{"http://x/n1", "http://x/n2", "http://x/n3"} {
+		nodes = append(nodes, verifObj("@id", id, "@type", "http://example.org/C"))
+		nodes = append(nodes, verifObj("@id", id+"/lex", smNS+"element", id, smNS+"value", rangeOf(id)))
+		lex = append(lex, verifObj("@id", id+"/lex"))
+	}
+	nodes = append(nodes, verifObj("@id", "http://x/sm", "@type", smNS+"SourceMap", smNS+"lexical", lex))
+	si := verifObj("@id", "http://x/si", "@type", docNS+"BaseUnitSourceInformation", docNS+"rootLocation", root)
+	if len(inLib) > 0 {
+		var els []any
+		for _, id := range inLib {
+			els = append(els, verifObj("@id", id))
+		}
+		si[docNS+"additionalLocations"] = verifObj("@id", "http://x/loc")
+		nodes = append(nodes, verifObj("@id", "http://x/loc", docNS+"location", "file://lib", docNS+"elements", els))
+	}
+	nodes = append(nodes, si)
+	return verifObj("@graph", nodes)
+}
+
+// verifC09Units: units that share their root location (a file parsed again after an edit) and differ
+// in what the library declares or in where the nodes are.
+func verifC09Units(k int) (g any, lib map[string]bool, rng func(string) string, root string) {
+	r1 := func(id string) string { return "[(1,1)-(2,2)]" }
+	r2 := func(id string) string { return "[(5,0)-(6,9)]" }
+	switch k {
+	case 0:
+		return verifUnitGraph("file://root", []string{"http://x/n1"}, r1), map[string]bool{"http://x/n1": true}, r1, "file://root"
+	case 1:
+		return verifUnitGraph("file://root", []string{"http://x/n2", "http://x/n3"}, r1), map[string]bool{"http://x/n2": true, "http://x/n3": true}, r1, "file://root"
+	case 2:
+		return verifUnitGraph("file://root", nil, r2), map[string]bool{}, r2, "file://root"
+	}
+	return verifUnitGraph("file://other", []string{"http://x/n1"}, r2), map[string]bool{"http://x/n1": true}, r2, "file://other"
+}
+
+func verifC09CheckUnit(k int) {
+	g, lib, rng, root := verifC09Units(k)
+	idx := Index(g).(types.ObjectMap)
+	lexical, _ := idx["@lexical"].(types.ObjectMap)
+	for _, id := range []string{"http://x/n1", "http://x/n2", "http://x/n3"} {
+		entry, _ := lexical[id].(types.ObjectMap)
+		want := root
+		if lib[id] {
+			want = "file://lib"
+		}
+		v.Assert("C09.index-of-this-document.uri", entry != nil && entry["uri"] == want)
+		v.Assert("C09.index-of-this-document.range", entry != nil && entry["range"] == rng(id))
+	}
+}
+
+// VerifC09IndexHistory: what the policy sees of a document is a function of that document, whatever
+// was indexed before it: histories of three units that share node ids and (mostly) their root location.
+func VerifC09IndexHistory() {
+	for step := 0; step < 3; step++ {
+		verifC09CheckUnit(v.Choice("unit", 4))
+	}
+	v.Reach("indexed-3")
+}
+
+func VerifC09IndexHistoryNative() {
+	for step := 0; step < 3; step++ {
+		name := "unit"
+		if step > 0 {
+			name = "unit#" + string(rune('0'+step))
+		}
+		k := 0
+		if _, asked := v.ReplayInput(name); asked {
+			k = v.ReplayInt(name)
+		}
+		verifC09CheckUnit(k)
+	}
 }
 
 // verifFlattenWitness is a document the JSON-LD processor rejects with the kind of error
